@@ -42,40 +42,44 @@ def cstr(c):
     return "<None>" if c is None else str(c)
 
 
-def groups(t):
+def _rn(c, ren):
+    return cstr(c) if ren is None else cstr(ren.get(c, c))
+
+
+def groups(t, ren=None):
     """tuple of frozensets -> list of sorted lists; empty groups dropped"""
     if t is None:
         return None
-    return [sorted(cstr(c) for c in g) for g in t if len(g) > 0]
+    return [sorted(_rn(c, ren) for c in g) for g in t if len(g) > 0]
 
 
 def flat(t):
     return [c for g in t for c in g]
 
 
-def scores_c(d):
+def scores_c(d, ren=None):
     if d is None:
         return None
-    return sorted([cstr(c), fs(v)] for c, v in d.items())
+    return sorted([_rn(c, ren), fs(v)] for c, v in d.items())
 
 
-def tiebreaks_c(tb):
-    return sorted([[sorted(cstr(c) for c in k), groups(v)] for k, v in tb.items()])
+def tiebreaks_c(tb, ren=None):
+    return sorted([[sorted(_rn(c, ren) for c in k), groups(v, ren)] for k, v in tb.items()])
 
 
-def state_c(s):
+def state_c(s, ren=None):
     return {
         "round": s.round_number,
-        "elected": groups(s.elected),
-        "eliminated": groups(s.eliminated),
-        "remaining": groups(s.remaining),
-        "scores": scores_c(s.scores),
-        "tiebreaks": tiebreaks_c(s.tiebreaks),
+        "elected": groups(s.elected, ren),
+        "eliminated": groups(s.eliminated, ren),
+        "remaining": groups(s.remaining, ren),
+        "scores": scores_c(s.scores, ren),
+        "tiebreaks": tiebreaks_c(s.tiebreaks, ren),
     }
 
 
-def outcome_c(e):
-    return [state_c(s) for s in e.election_states]
+def outcome_c(e, ren=None):
+    return [state_c(s, ren) for s in e.election_states]
 
 
 def ballot_content(b):
